@@ -168,6 +168,34 @@ def run(ctx):
                         ev.append(dict(op='tv', rows=[li(r_) for r_ in x.reshape(-1, 2 * n)], hs=[li(h) for h in hs], res=[li(r_) for r_ in y.reshape(-1, 2 * n)], shape=list(shape)))
                 except Exception as ex:
                     ctx.violation('C09:transvection:exception', 'transvection on an array of shape %s: %s: %s' % (shape, type(ex).__name__, str(ex)[:120]), dict(n=n, shape=list(shape)))
+    # get_inner_product on batches of every shape (incl. long vectors, where the uint8 dot product wraps modulo 256) and the bit helpers the
+    # mixed-radix index is read through (widths up to 70 bits: more than one machine word)
+    for n in (1, 2, 3, 5, 40, 300):
+        for shape in [(2 * n,), (3, 2 * n), (2, 3, 2 * n)]:
+            for dense in (False, True):
+                x = rng_np.integers(0, 2, size=shape, dtype=np.uint8) if not dense else np.ones(shape, dtype=np.uint8)
+                v = rng_np.integers(0, 2, size=2 * n, dtype=np.uint8) if not dense else np.ones(2 * n, dtype=np.uint8)
+                if dense:
+                    x.reshape(-1)[0] = 0
+                ctx.case(('ip', n, shape, dense))
+                try:
+                    y = np.asarray(spf2.get_inner_product(x.copy(), v.copy()))
+                    if y.shape != x.shape[:-1]:
+                        ctx.violation('C09:get_inner_product:shape', 'get_inner_product on a batch of shape %s returns shape %s' % (x.shape, y.shape), dict(n=n, shape=list(shape)))
+                    else:
+                        ev.append(dict(op='ip', rows=[li(r_) for r_ in x.reshape(-1, 2 * n)], v=li(v), res=[int(t) for t in y.reshape(-1)]))
+                except Exception as ex:
+                    ctx.violation('C09:get_inner_product:exception', '%s: %s' % (type(ex).__name__, str(ex)[:120]), dict(n=n, shape=list(shape)))
+    for width in (1, 2, 7, 8, 9, 15, 16, 17, 31, 32, 33, 63, 64, 65, 70):
+        for val in sorted({0, 1, 2 ** width - 1, 2 ** (width - 1), (2 ** width) // 3, rng.randrange(2 ** width), rng.randrange(2 ** width)}):
+            ctx.case(('bits', width, val))
+            try:
+                b = np.asarray(spf2.int_to_bitarray(val, width))
+                back = int(spf2.bitarray_to_int(b))
+                l15 = lambda v_: [int((v_ >> (15 * k_)) & 0x7fff) for k_ in range((width + 14) // 15)]
+                ev.append(dict(op='bits', n=width, limbs=l15(val), bits=[int(t) for t in b], back=l15(back) if 0 <= back < 2 ** width else [-1]))
+            except Exception as ex:
+                ctx.violation('C09:int_to_bitarray:exception', '%s: %s' % (type(ex).__name__, str(ex)[:120]), dict(width=width, value=str(val)))
     for n in ([1, 2, 3] if quick else [1, 2, 3, 4]):
         vecs = [np.array(v, dtype=np.uint8) for v in itertools.product([0, 1], repeat=2 * n) if any(v)]
         for v0 in vecs:
@@ -214,7 +242,7 @@ def run(ctx):
         ctx.case((e['op'], repr(e.get('v0')), repr(e.get('v1')), repr(e.get('t')), e.get('n') if e['op'] == 'numbers' else None))
     for gi, info in rej:
         e = ev[gi]
-        key = {'tv': 'C09:transvection:row-wise', 'ft': 'C09:find_transvection:maps-v0-to-v1', 'rand': 'C09:rand_SpF2:valid', 'index': 'C09:rand_SpF2:return-kinds', 'numbers': 'C09:get_number:order-base-coset'}[e['op']]
+        key = {'tv': 'C09:transvection:row-wise', 'ft': 'C09:find_transvection:maps-v0-to-v1', 'rand': 'C09:rand_SpF2:valid', 'index': 'C09:rand_SpF2:return-kinds', 'numbers': 'C09:get_number:order-base-coset', 'ip': 'C09:get_inner_product:row-wise', 'bits': 'C09:int_to_bitarray:round-trip'}[e['op']]
         ctx.violation(key, 'event rejected by Trace_Sp: ' + e['op'], e)
     validate_repo_tests(ctx)
     ctx.sample(dict(kind='find_transvection', event=[e for e in ev if e['op'] == 'ft'][37]))
